@@ -398,8 +398,8 @@ def event_time_harness(w, size, slide, iters, max_len, base=None):
 def event_time_tasks(tier, role):
     ts = []
     grid = [(2, 2), (2, 1), (3, 2), (4, 2)] if tier == 'quick' else \
-        [(n, s) for n in (1, 2, 3, 4, 5) for s in range(1, n + 1)]
-    bases = [-3, 1000] if tier == 'quick' else [-1000, -3, 1000, None]
+        [(n, s) for n in (1, 2, 3, 4) for s in range(1, n + 1)]
+    bases = [-3, 1000] if tier == 'quick' else [-3, 1000, None]
     for n, s in grid:
         for b in bases:
             ln = (4 if tier == 'quick' else 5) if b is not None else 3
@@ -605,7 +605,7 @@ def reorder_harness(w, iters, max_len, kinds='TW'):
 
 
 def reorder_tasks(tier, role):
-    it, ln = (2, [4, 2]) if tier == 'quick' else (2, [5, 3])
+    it, ln = (2, [4, 2]) if tier == 'quick' else (2, [4, 3])
     return [Task('reorder_i%d' % it, 'reorder_harness', {'iters': it, 'max_len': ln},
                  bounds='Reorder::next driven to Terminate; %d iterations x <=%s elements (Timestamped/Watermark in any '
                         'order, contract-respecting), timestamps symbolic in [1000,1005); glidesort modelled as a '
